@@ -909,6 +909,46 @@ class FG:
             self.emit('call', Ref('p_exv'), Ref('exv'), flag, v)
         self.p.features.add('ovf:' + op + '+' + br)
 
+    def g_join_const(self):
+        """a join (phi) merging a small CONSTANT on one edge with a computed value on the other (triangle,
+        diamond, small loop).  Value numbering keeps constants and value numbers (insn indexes: small
+        non-negative integers) in one field, so the constant is taken from the range of the insn indexes
+        of this function - around the current position or anywhere below it - as well as from 0..63"""
+        r = self.rng
+        n = len(self.f.body)
+        k = r.random()
+        K = r.randrange(0, 64) if k < 0.35 else max(0, n + r.randrange(-12, 40)) if k < 0.8 else r.randrange(0, n + 40)
+        x = self.X_()
+        comp = lambda: self.emit(r.choice(['mul', 'add', 'sub', 'xor', 'and', 'or']), x, self.X_(),
+                                 self.X_() if r.random() < 0.7 else Imm(self.imm_val()))
+        shape = r.choice(['triangle', 'triangle-inv', 'diamond', 'diamond-inv', 'loop'])
+        l1, l2 = self.label(), self.label()
+        if shape == 'triangle':
+            self.emit('mov', x, Imm(K)); self.cond_branch(l1); comp(); self.place(l1)
+        elif shape == 'triangle-inv':
+            comp(); self.cond_branch(l1); self.emit('mov', x, Imm(K)); self.place(l1)
+        elif shape in ('diamond', 'diamond-inv'):
+            self.cond_branch(l1)
+            if shape == 'diamond': self.emit('mov', x, Imm(K))
+            else: comp()
+            self.emit('jmp', l2); self.place(l1)
+            if shape == 'diamond': comp()
+            else: self.emit('mov', x, Imm(K))
+            self.place(l2)
+        else:
+            i = R(self.new_local('jc'))
+            self.emit('and', i, self.X_(), Imm(r.choice([1, 3])))
+            self.emit('mov', x, Imm(K))
+            self.place(l1)
+            self.emit('ble', l2, i, Imm(0))
+            self.emit(r.choice(['add', 'xor', 'mul', 'sub']), x, x if r.random() < 0.5 else self.X_(), self.X_())
+            self.emit('sub', i, i, Imm(1))
+            self.emit('jmp', l1)
+            self.place(l2)
+        if r.random() < 0.4:
+            self.emit('call', Ref('p_exv'), Ref('exv'), x, x)
+        self.p.features.add('join-const:' + shape)
+
     def g_counted_loop(self):
         """a small inner loop whose counter is (re)initialised right here and whose closing branch tests
         the counter value from BEFORE the decrement (c2mir's `while (w-- > 0)`): a single-block loop in
@@ -1216,7 +1256,7 @@ class FG:
         kinds = [(self.g_alu64, 14), (self.g_alu32, 12), (self.g_neg, 2), (self.g_ext, 6), (self.g_cmp, 7),
                  (self.g_ext_chain, 3), (self.g_reload, 3), (self.g_overlap, 5),
                  (self.g_shift, 7), (self.g_div, 7), (self.g_imm_arith, self.opts.get('w_imm_arith', 8)), (self.g_load, 8), (self.g_store, 9), (self.g_mov, 5),
-                 (self.g_ovf, self.opts.get('w_ovf', 4)), (self.g_pressure, self.opts.get('w_pressure', 3)), (self.g_local_alloca, 2), (self.g_counted_loop, 3), (self.g_call_ext, 3),
+                 (self.g_ovf, self.opts.get('w_ovf', 4)), (self.g_join_const, self.opts.get('w_join_const', 3)), (self.g_pressure, self.opts.get('w_pressure', 3)), (self.g_local_alloca, 2), (self.g_counted_loop, 3), (self.g_call_ext, 3),
                  (self.g_call_mir, self.opts.get('w_call', 4)), (self.g_self_call, 1)]
         if self.LD or any(self.CR.values()):
             kinds.append((self.g_param_write, self.opts.get('w_param_write', 8)))
@@ -1512,6 +1552,9 @@ class FG:
                 else:
                     self.emit('mov', Mem('u8', off, pr), self.X_()); off += 1
             self.P.append(PtrInfo(pr, n, True, alias='al' + pr))
+        # calls the caller of gen_program wants to see executed exactly once, before the blocks
+        for op, ops in getattr(self, 'pre_calls', []):
+            self.emit(op, *[R(self.rng.choice(self.X)) if o_ == 'X' else R(self.X[0]) if o_ == 'X0' else o_ for o_ in ops])
         # blocks
         labs = [self.label() for _ in range(nblocks)]
         lret = self.label()
@@ -1632,6 +1675,93 @@ class FG:
         return f
 
 
+# ---- families of tiny functions with one join ---------------------------------------------------------
+TINY_SHAPES = ['triangle', 'triangle-inv', 'diamond', 'diamond-inv', 'loop', 'three-way', 'two-phis']
+
+
+def tiny_join_family(p, rng, labbase):
+    """n copies of ONE tiny function `i64 f(i64 a, i64 b[, i64 c])` that differ only in the constant K a
+    join merges with a computed value; K runs through a window of consecutive small integers that
+    contains the positions (insn indexes) of the insns of the join, so that every coincidence "constant =
+    internal number of the other value" occurs in one of the copies.  The functions are kept out of
+    link-time inlining (a label address is taken, or more than 50 insns AFTER the join), so their insn
+    numbers stay small.  Returns (callee descriptions, calls for main, next label base)."""
+    r = rng
+    shape = r.choice(TINY_SHAPES)
+    npre = r.choice([0, 0, 0, 1, 2, 3, 5, 8])
+    keep = r.choice(['laddr', 'laddr', 'long'])
+    nargs = r.choice([2, 2, 3])
+    opk = r.choice(['mul', 'mul', 'add', 'sub', 'xor', 'mov', 'neg', 'and', 'lsh', 'ext8'])
+    fold_pre = r.random() < 0.5
+    nk = r.choice([8, 12, 16])
+    est = npre + (1 if keep == 'laddr' else 0) + nargs + 2
+    k0 = max(0, est - r.choice([2, 4, 6, 8]))
+    c1, c2 = r.choice([1, 3, 7, 100, -1]), r.choice([1, 2, 5, 255])
+    callees, calls = [], []
+    fam = len([it for it in p.items if it[0] == 'func' and it[1].name.startswith('tj')])
+    for K in range(k0, k0 + nk):
+        name = 'tj%d_%d' % (fam, K)
+        args = [('i64', 'a'), ('i64', 'b')] + ([('i64', 'c')] if nargs == 3 else [])
+        f = Func(name, ['i64'], args)
+        f.locals = [('i64', 'r'), ('i64', 'q'), ('i64', 'i'), ('i64', 'lu')] + [('i64', 't%d' % i) for i in range(64)]
+        nl = [labbase]
+
+        def lab():
+            nl[0] += 1
+            return Lab(nl[0])
+        e = lambda op, *ops: f.body.append(Insn(op, list(ops)))
+        pl = lambda l: f.body.append(Insn('label', [l]))
+        l1, l2, l3 = lab(), lab(), lab()
+        if keep == 'laddr': e('laddr', R('lu'), l1)
+        prev = 'b'
+        for i in range(npre):
+            e(['add', 'xor', 'sub', 'mul'][i % 4], R('t%d' % i), R(prev), Imm(c1 + i)); prev = 't%d' % i
+        other = R('c') if nargs == 3 else R(prev)
+
+        def comp(dst='r'):
+            if opk in ('mov', 'neg', 'ext8'): e(opk, R(dst), R('b'))
+            elif opk in ('and', 'lsh'): e(opk, R(dst), R('b'), Imm(c2 if opk == 'and' else c2 % 64))
+            elif opk == 'mul': e('mul', R(dst), R('b'), R('b'))
+            else: e(opk, R(dst), R('b'), other)
+        if shape == 'triangle':
+            e('mov', R('r'), Imm(K)); e('bt', l1, R('a')); comp(); pl(l1)
+        elif shape == 'triangle-inv':
+            comp(); e('bt', l1, R('a')); e('mov', R('r'), Imm(K)); pl(l1)
+        elif shape == 'diamond':
+            e('bf', l1, R('a')); e('mov', R('r'), Imm(K)); e('jmp', l2); pl(l1); comp(); pl(l2)
+        elif shape == 'diamond-inv':
+            e('bt', l1, R('a')); comp(); e('jmp', l2); pl(l1); e('mov', R('r'), Imm(K)); pl(l2)
+        elif shape == 'loop':
+            e('and', R('i'), R('a'), Imm(3)); e('mov', R('r'), Imm(K)); pl(l1); e('ble', l2, R('i'), Imm(0))
+            if opk in ('add', 'sub', 'xor', 'mul'): e(opk, R('r'), R('r'), R('b'))
+            else: comp()
+            e('sub', R('i'), R('i'), Imm(1)); e('jmp', l1); pl(l2)
+        elif shape == 'three-way':
+            e('bgt', l1, R('a'), Imm(1)); e('bt', l2, R('a')); comp(); e('jmp', l3)
+            pl(l1); e('mov', R('r'), Imm(K)); e('jmp', l3); pl(l2); e('mov', R('r'), Imm(K)); pl(l3)
+        else:   # two joins at one label: the constant and another one against two computed values
+            e('mov', R('r'), Imm(K)); e('mov', R('q'), Imm(K + 1)); e('bt', l1, R('a')); comp('r'); e('add', R('q'), R('b'), R('a'))
+            pl(l1); e('xor', R('r'), R('r'), R('q'))
+        if fold_pre and npre: e('xor', R('r'), R('r'), R(prev))
+        if keep == 'long':
+            for i in range(52):
+                e(['add', 'xor', 'sub', 'or'][i % 4], R('r'), R('r'), Imm(c1 + 3 * i) if i % 3 else R('b'))
+        e('ret', R('r'))
+        used = set(o_.name for ins in f.body for o_ in ins.ops if isinstance(o_, R))
+        f.locals = [(t, n) for t, n in f.locals if n in used]
+        labbase = nl[0]
+        p.add_item(('proto', 'p_' + name, ['i64'], [t for t, _ in args]))
+        p.add_item(('func', f))
+        callees.append(dict(name=name, proto='p_' + name, res=['i64'], args=[t for t, _ in args], ptrs={}))
+        for av in ([0, 1] if shape != 'loop' else [0, 1, 2]) + ([2] if shape == 'three-way' else []):
+            calls.append(('call', [Ref('p_' + name), Ref(name), 'X0', Imm(av), 'X' if r.random() < 0.8 else Imm(r.choice([3, 7, -5, 1000]))]
+                          + (['X'] if nargs == 3 else [])))
+            calls.append(('call', [Ref('p_exv'), Ref('exv'), 'X0', 'X']))
+    p.features.add('tiny-join:' + shape)
+    p.features.add('tiny-join:keep-' + keep)
+    return callees, calls, labbase
+
+
 # ---- whole programs ---------------------------------------------------------------------------------
 REGION_BASE = 0x500000000
 
@@ -1715,8 +1845,13 @@ def gen_program(rng, opts=None):
         fopts = dict(o)
         fopts['fuel'] = max(3, o['fuel'] // (1 + depth))
         fopts['labbase'] = labbase
+        tiny_calls = []
+        if is_main and rng.random() < o.get('p_tiny_join', 0.2):
+            tc, tiny_calls, labbase = tiny_join_family(p, rng, labbase)
+            fopts['labbase'] = labbase
         g = FG(p, rng, name, res, args, ptr_args, list(callees), fopts, depth)
         g.selfinfo = selfinfo
+        g.pre_calls = tiny_calls
         big = rng.random() < 0.25
         nblocks = rng.choice([1, 2, 3, 4, 6]) if not big else rng.choice([6, 9, 12])
         blen = rng.choice([2, 4, 6]) if not big else rng.choice([6, 10])
